@@ -348,7 +348,11 @@ Section Statement.
         match t with
         | None => ret (inr tt)
         | Some TColon => discard_remaining_tokens ;;; ret (inl tt)
-        | Some TElse => statement_or_goto_line_number ;;; ret (inr tt)
+        | Some TElse =>
+            statement_or_goto_line_number ;;;
+            e <- peek_is TElse ;;
+            (if e then discard_remaining_tokens else ret tt) ;;;    (* a further ELSE belongs to an enclosing IF *)
+            ret (inr tt)
         | Some _ => ret (inl tt)
         end) tt.
 
